@@ -19,7 +19,7 @@ DECIDING = ['path.inv_arclength', 'Arc.ilength', 'CubicBezier.ilength', 'Path.il
 ANCHORED = ['inv_arclength', '.ilength']
 RULE = ('cases = one curve (each segment type, or a path of 2-5 mixed segments) at coordinate scale 1e-3..1e6 with a sorted grid '
         'of arc lengths s in [0, L] (0, L, segment boundaries of a path and their ulp-neighbours, 7-point grid, random) plus out-of-'
-        'range s; every inv_arclength call is judged: result in [0,1], reference arc length from 0 equals s within max(s_tol, 1e-9 L), '
+        'range s; every inv_arclength / X.ilength call is judged: result in [0,1], length(0,t) equals s within max(2 s_tol, 256 eps L) in the library\'s own measure and the reference arc length brackets s within max(s_tol, 1e-9 L), '
         'ValueError exactly for s outside [0, L], bounded number of length evaluations; monotonicity over the grid; distinct by spec + '
         'grid; non-trivial if an oracle verdict was reached')
 ASSUMPTIONS = ['vt/ref/quad.py bracket/quadrature; "floating-point resolution of L" is taken as 1e-9*L (scipy quad default epsrel 1.49e-8 bounds its noise)',
@@ -308,8 +308,8 @@ def crash_key(ctx, case, e, site):
 
 
 REGISTER = True
-TECHNIQUE = 'runtime monitor on inv_arclength (result, exception, number of length evaluations) with a reference arc-length bracket from vt/ref/quad.py; sorted-grid workload for monotonicity at coordinate scales 1e-3..1e6'
-LEVEL_TEXT = ('Every inv_arclength call (segment-level and path-level) made by the workload must return a parameter in [0,1] whose reference arc '
-              'length from 0 brackets s within max(s_tol, 1e-9 L), return 0/1 at s = 0/L, raise ValueError exactly for s outside [0,L] and nothing '
+TECHNIQUE = 'runtime monitors on inv_arclength and on the ilength methods of every curve type (result, exception, number of length evaluations) with a reference arc-length bracket from vt/ref/quad.py and the inverse relation against the library\'s own length; sorted-grid workload for monotonicity at coordinate scales 1e-3..1e6, retraced paths, nearly circular arcs'
+LEVEL_TEXT = ('Every inv_arclength / ilength call (segment-level and path-level) made by the workload must return a parameter in [0,1] with '
+              'length(0,t) = s to max(2 s_tol, 256 eps L) and whose reference arc length from 0 brackets s within max(s_tol, 1e-9 L) (plus the observed error of the library\'s own total length, C06\'s subject), return 0/1 at s = 0/L, raise ValueError exactly for s outside [0,L] and nothing '
               'else, and use a bounded number of length evaluations; monotonicity is checked on a sorted grid including the segment boundaries of paths.')
 LEVEL_NOTE = 'Termination is observed as bounded progress (<= 200 length evaluations per segment-level call), not proved; watchdog firing = inconclusive.'
